@@ -86,7 +86,12 @@ Unlock(t) ==
   /\ UNCHANGED <<cfg, index, loc, cnt, last, log>>
 
 Step(t) == Lock(t) \/ Sel_Read(t) \/ Relock(t) \/ Sel_Write(t) \/ Unlock(t)
-Next == \E t \in threads : Step(t)
+A_Lock     == \E t \in threads : Lock(t)
+A_SelRead  == \E t \in threads : Sel_Read(t)
+A_Relock   == \E t \in threads : Relock(t)
+A_SelWrite == \E t \in threads : Sel_Write(t)
+A_Unlock   == \E t \in threads : Unlock(t)
+Next == A_Lock \/ A_SelRead \/ A_Relock \/ A_SelWrite \/ A_Unlock
 Spec == Init /\ [][Next]_vars /\ \A t \in All : WF_vars(t \in threads /\ Step(t))
 
 \* strictly in rotation, in the order of the critical sections: the k-th selection is target ((k-1) mod nt)+1
